@@ -200,6 +200,29 @@ def bindRef (p : PSpec) (raw : Option (List Str)) : Bound :=
       | none => .reject
       | some v => if validOne p.v v then .one v else .reject
 
+
+/-! ### collectionFormat "multi" (query and formData only): every value given for the key is one item, nothing is split -/
+
+def bindGenMulti (p : PSpec) (raw : Option (List Str)) : Bound :=
+  if p.required && !raw.isSome then .reject else
+  if (raw.getD []).isEmpty then emptyCase p else arrayCore p (raw.getD [])
+
+def bindRefMulti (p : PSpec) (raw : Option (List Str)) : Bound :=
+  match raw with
+  | none => emptyCase p
+  | some vs =>
+    if vs.isEmpty then emptyCase p else
+    match vs.mapM (convertRef p.ty) with
+    | none => .reject
+    | some vals => if vals.all (validOne p.v) && validMany p vals then .many vals else .reject
+
+/-- dispatch on the collectionFormat, as the template does -/
+def bindGenAny (p : PSpec) (raw : Option (List Str)) : Bound :=
+  if p.isArray && p.cf = "multi" then bindGenMulti p raw else bindGen p raw
+
+def bindRefAny (p : PSpec) (raw : Option (List Str)) : Bound :=
+  if p.isArray && p.cf = "multi" then bindRefMulti p raw else bindRef p raw
+
 /-- no item is empty or carries surrounding blanks: the requests on which trimming and dropping are invisible -/
 def cleanItems (cf : String) (data : Str) : Bool :=
   (splitOn (sepOf cf) data).all (fun s => s ≠ [] && trimSpace s = s)
